@@ -2998,6 +2998,13 @@ coap_handle_request_put_block(coap_context_t *context,
   lg_srcv->last_mid = pdu->mid;
   lg_srcv->last_type = pdu->type;
 
+  if (!block.bert && block.num == 0 && lg_srcv->szx < block.szx) {
+    /*
+     * Block size is getting forced down from the next block on, so the
+     * received blocks have to be tracked in units of the smaller size.
+     */
+    block.szx = lg_srcv->szx;
+  }
   chunk = (size_t)1 << (block.szx + 4);
   update_data = 0;
   saved_num = block.num;
